@@ -1035,6 +1035,10 @@ def case_history(case):
                 gen = bank_obj.read_all(addr, use_latch=bool(op.get("use_latch", True)))
             else:
                 gen = cls.read(addr)
+            if not hasattr(gen, "send"):
+                add("C09:operation-is-not-a-sequence:%s" % name, "%s of bank object %s returned %r instead of a command "
+                    "sequence (generator)" % (name, bankobj, gen))
+                continue
             if op.get("stop"):
                 run_partial(bus, gen, op["stop"][0], op["stop"][1])
             else:
